@@ -1,5 +1,6 @@
 SPECIFICATION Spec
 INVARIANT EchelonAlgOK
+INVARIANT TopAlgOK
 INVARIANT SplitOK
 CONSTANT KM = 2
 CHECK_DEADLOCK FALSE
